@@ -1,6 +1,7 @@
 import DoitModel.Proofs.DelayedWF
 import DoitModel.Proofs.C15Obey3
 import DoitModel.Proofs.C15Target
+import DoitModel.Proofs.C15Clos
 import DoitModel.Model.DelayedSel
 /-! # C15 — delayed task creation happens once, after its trigger
 
@@ -27,8 +28,9 @@ What is proved of `created_obey` / `target` and what is left (wave 3):
   invariant "a table entry outside `tasks0` was yielded by an evaluated creator" —, (iii) a placeholder is not
   `DelayedLoaded` before its own creator ran (`mustCreate` is also false when `tasks[to_load]` has no loader, so this
   needs a `resolvesB`-like condition on `to_load`).  Not done.
-* `C15_target` is the structural core.  "Exactly the producer and its closure" (nothing else is started) and "the run
-  does start the producer" (liveness) are not model theorems; the monitor `targetOK` evaluates them. -/
+* `C15_target` is the structural core, `C15_started_in_closure` the "exactly" half (nothing outside the closure of
+  the selection is started).  "The run does start the producer" (liveness) is not a model theorem; the monitor
+  `targetOK` evaluates it on exit 0. -/
 namespace DoitModel.C15
 open DoitModel.Delayed
 open DoitModel.Run (Name)
@@ -121,6 +123,12 @@ theorem C15_created_start_after_deps (inp : Input) (h : trigB inp = true) (s : S
     ∀ d ∈ nodeDeps s t, Ev.success d ∈ pre ∨ Ev.skipUtd d ∈ pre :=
   obeyOK_start_split _ _ _ t post pre hev (C15_created_obey inp h s hr)
 
+/-- **created_obey**, up-to-date rule (the model's `get_status` is the oracle `inp.utd`): a task — static or
+    created — that is up-to-date is never handed to execution, and only up-to-date tasks are skipped -/
+theorem C15_created_utd (inp : Input) (h : trigB inp = true) (s : Sys) (hr : Reach inp s) :
+    utdOK inp.utd s.events = true :=
+  (obey_reach (trigWF_of_bool h) hr).core.utd
+
 /-- … and over the task table itself (`dynDeps s` = task_deps of `TaskControl.tasks[t]` in state `s`), in every
     state in which the table entry of every started task is still the object its node holds.  The two differ only
     when a creator re-defines the name of a task that was already handed to execution (`self.tasks[nt.name] = nt`
@@ -142,8 +150,8 @@ theorem C15_created_obey_table (inp : Input) (h : trigB inp = true) (s : Sys) (h
       has the task that owns target `x` among its task_deps — so by `C15_created_obey` the producer (and, through the
       producer's own node, its dependencies) is processed before it — or other loaders of its group are still to be
       tried.
-    Not proved here: "exactly" (nothing outside the closure of the selection is started — the monitor `targetOK`
-    evaluates it on every implementation trace) and liveness (the run does reach the producer's `start`). -/
+    "Exactly" (nothing outside the closure of the selection is started) is `C15_started_in_closure` below.
+    Not proved: liveness (the run does reach the producer's `start`; monitor `targetOK`). -/
 theorem C15_target (inp : Input) (h : rxB inp = true) (s : Sys) (hr : Reach inp s) :
     (∀ x, s.susp = .err (.notFound x) → s.targets x = none ∧ ∃ g, inp.gtarget g = x ∧ s.gtasks g = []) ∧
     ((∀ e, s.susp ≠ .err e) → ∀ n nd g, s.nodes n = some nd → nd.task.rx = some g → nd.task.loader = none →
@@ -161,6 +169,19 @@ theorem C15_target_producer_first (inp : Input) (h1 : trigB inp = true) (h2 : rx
   rcases (C15_target inp h2 s hr).2 hne n nd g hn hg hl with ⟨o, ho, hod⟩ | h
   · exact Or.inl ⟨o, ho, C15_created_start_after_deps inp h1 s hr n post pre hev o (by simpa [nodeDeps, hn] using hod)⟩
   · exact Or.inr h
+
+/-- **target**, "exactly": every task the dispatcher makes a node for — in particular every task that is handed to
+    execution — is in the closure of the selection: reachable from a selected task through task_dep edges of the
+    `Task` objects the nodes hold (`nodeDeps`: created tasks with their implicit deps, the reset regex placeholder
+    with the producer of its word) or of the initial table (`origDeps`: a placeholder's `executed` trigger).  For a
+    selection by target this is "the producer, what it depends on, and the creator's trigger — nothing else". -/
+theorem C15_nodes_in_closure (inp : Input) (s : Sys) (hr : Reach inp s) (n : Name) (nd : Node)
+    (hn : s.nodes n = some nd) : InClos inp s n :=
+  ((clos_reach hr).node n nd hn).1
+
+theorem C15_started_in_closure (inp : Input) (h : trigB inp = true) (s : Sys) (hr : Reach inp s) (t : Name)
+    (ht : Ev.start t ∈ s.events) : InClos inp s t :=
+  started_in_closure (after_reach (trigWF_of_bool h) hr).cnt (clos_reach hr) t ht
 
 /-! ### non-vacuity: a static trigger `0`; one creator with `creates=[1, 2]` (two loader objects, `executed = 0`) that
     yields task 1 and task 2 (which depends on 1); a static task 3 depending on both placeholders, selected.  The
@@ -210,7 +231,8 @@ example :
 
 def exRx (produce : Bool) : Input :=
   { tasks0 := [(0, { act := true, oid := 0 }), (1, { deps := [0], loader := some 0, oid := 1 }),
-               (5, { deps := [0], loader := some 1, fileDep := [7], rx := some 0, isRx := true, oid := 5 })]
+               (5, { deps := [0], loader := some 1, fileDep := [7], rx := some 0, isRx := true, oid := 5 }),
+               (9, { act := true, oid := 9 })]
     targets0 := []
     creatorOf := fun _ => 0
     execOf := fun _ => some 0
@@ -221,7 +243,7 @@ def exRx (produce : Bool) : Input :=
     sel := [5] }
 
 /-- the creator yields the producer of word 7: the placeholder is reset with the producer among its task_deps and
-    runs after it -/
+    runs after it; the unselected static task 9 is not touched -/
 example :
     rxB (exRx true) = true ∧ trigB (exRx true) = true ∧
     (autoRun (exRx true) 200 (init (exRx true))).susp = .stopIter ∧
